@@ -185,6 +185,7 @@ int main(int argc, char** argv)
             r.outcome(std::string("fit threw"));
             return;
         }
+        purge_tmpdir();
         r.evaluations += 1;
         ++r.nontrivial;
         r.outcome(is_lin ? "linear fitted, trials=" + std::to_string(result.trials()) : "gboost fitted, trials=" + std::to_string(result.trials()));
